@@ -2,6 +2,7 @@ package seq
 
 import (
 	"fmt"
+	"github.com/libp2p/go-libp2p/core/crypto"
 	"sort"
 	"strings"
 	"sync"
@@ -236,7 +237,7 @@ func followUps(p *run.Part, check string, failed *seqx.World, twin *seqx.World, 
 
 // ---- (B) tampered sources ----
 
-var c06Faults = []string{"sig-removed", "sig-of-other", "key-removed", "key-of-other-writer", "key-of-destination", "payload-altered", "foreign-id", "none"}
+var c06Faults = []string{"sig-removed", "sig-of-other", "key-removed", "key-of-other-writer", "key-of-destination", "payload-altered", "payload-altered-lenient-provider", "foreign-id", "none"}
 
 type c06Case struct {
 	Config string    `json:"config"`
@@ -329,6 +330,13 @@ func tamperOne(p *run.Part, cfg *seqx.Config, cc c06Case) {
 				c.SetKey(world.IDs[w.WriterOf[cc.Dst]].PublicKey)
 			case "payload-altered":
 				c.SetPayload(append(append([]byte{}, e.GetPayload()...), '!'))
+			case "payload-altered-lenient-provider":
+				// ... and the forged entry brings its own means of verification along: an identity object whose provider
+				// accepts every signature. What verifies a candidate is the merging log's business, never the candidate's.
+				c.SetPayload(append(append([]byte{}, e.GetPayload()...), '!'))
+				if id := e.GetIdentity(); id != nil {
+					c.SetIdentity(&idp.Identity{ID: id.ID, PublicKey: id.PublicKey, Signatures: id.Signatures, Type: id.Type, Provider: lenientProvider{id.Provider}})
+				}
 			case "foreign-id":
 				c.SetLogID("Y")
 			}
@@ -590,3 +598,18 @@ func mkPolicy(mk func(cfg *seqx.Config, prefix string, d int) *seqx.Search, cfgN
 	s.Alphabet = Alphabet(2, true)
 	return s
 }
+
+// lenientProvider parses every key into one that accepts every signature.
+type lenientProvider struct{ idp.Interface }
+
+func (l lenientProvider) UnmarshalPublicKey(data []byte) (crypto.PubKey, error) {
+	k, err := l.Interface.UnmarshalPublicKey(data)
+	if err != nil {
+		return nil, err
+	}
+	return acceptAllKey{k}, nil
+}
+
+type acceptAllKey struct{ crypto.PubKey }
+
+func (acceptAllKey) Verify(data []byte, sig []byte) (bool, error) { return true, nil }
